@@ -132,9 +132,15 @@ type c03Block struct {
 	loc        string
 	content    []byte
 	consistent bool
+	declOnly   bool // inconsistent-hint blocks: every scripted 200 answer declares a Content-Length
 	order      []int
 	script     [][]c03Resp
 }
+
+// the declared-length counterpart of a chunked behaviour (what the client sees is the same stream, but the
+// response says how long it is)
+var c03Declared = map[int]int{c03ChunkedOK: c03Correct, c03ChunkedLong: c03LongConsistent, c03ChunkedShort: c03ShortConsistent,
+	c03ChunkedCut: c03ShortTruncated, c03ChunkedFlip: c03Flip}
 
 type c03Op struct {
 	kind     int // 0 get, 1 readat, 2 group, 3 file
@@ -144,6 +150,7 @@ type c03Op struct {
 	n, off   int
 	segs     [][3]int
 	writerTo bool // stub body implements io.WriterTo
+	chunk    int  // stub body: bytes per Read (0 = everything that fits)
 }
 
 type c03Case struct {
@@ -282,13 +289,17 @@ func c03Err(err error) string {
 // ---- stub services ----
 
 type c03Body struct {
-	data []byte
-	pos  int
-	ueof bool
+	data  []byte
+	pos   int
+	ueof  bool
+	chunk int // > 0: a Read hands over at most this many bytes (as a network body does)
 }
 
 func (b *c03Body) Read(p []byte) (int, error) {
 	if b.pos < len(b.data) {
+		if b.chunk > 0 && len(p) > b.chunk {
+			p = p[:b.chunk]
+		}
 		n := copy(p, b.data[b.pos:])
 		b.pos += n
 		return n, nil
@@ -320,6 +331,7 @@ type c03Services struct {
 	hold     chan struct{} // when non-nil, requests wait here before they are answered
 	held     int
 	writerTo bool
+	chunk    int
 	unknown  int
 }
 
@@ -363,8 +375,11 @@ func (s *c03Services) Do(req *http.Request) (*http.Response, error) {
 		return nil, errors.New("verif stub: connection refused")
 	}
 	data, ueof := r.stream()
-	var body io.ReadCloser = &c03Body{data: data, ueof: ueof}
-	if s.writerTo {
+	s.mtx.Lock()
+	wt, chunk := s.writerTo, s.chunk
+	s.mtx.Unlock()
+	var body io.ReadCloser = &c03Body{data: data, ueof: ueof, chunk: chunk}
+	if wt {
 		body = &c03BodyWT{c03Body{data: data, ueof: ueof}}
 	}
 	return &http.Response{StatusCode: r.status, Status: fmt.Sprint(r.status), Header: http.Header{}, ContentLength: int64(r.declared), Body: body, Request: req}, nil
@@ -443,8 +458,14 @@ func c03Content(r *vRand) []byte {
 	return b
 }
 
-func c03Script(r *vRand, c *c03Case, content []byte, nAttempts int) [][]c03Resp {
+func c03Script(r *vRand, c *c03Case, bl *c03Block, nAttempts int) [][]c03Resp {
+	content := bl.content
 	mode := r.Intn(5)
+	if !bl.consistent {
+		// a locator whose size hint is wrong is interesting when a service answers 200 with a well-formed
+		// body (right digest, Content-Length = real length != hint): mostly-200 scripts
+		mode = []int{2, 3, 5, 5}[r.Intn(4)]
+	}
 	sc := make([][]c03Resp, c.nsvc)
 	for s := range sc {
 		for a := 0; a < nAttempts; a++ {
@@ -468,11 +489,22 @@ func c03Script(r *vRand, c *c03Case, content []byte, nAttempts int) [][]c03Resp 
 				} else {
 					beh = []int{c03Correct, c03ChunkedOK, c03LongExtra}[r.Intn(3)]
 				}
+			case 5: // the first answer of every service is (mostly) the stored block as it is
+				beh = r.Intn(c03S404)
+				if r.Chance(1, 6) {
+					beh = c03S404 + r.Intn(c03NBeh-c03S404)
+				}
+				if a == 0 && r.Chance(3, 4) {
+					beh = []int{c03Correct, c03Correct, c03Correct, c03ChunkedOK}[r.Intn(4)]
+				}
 			default: // all 404 / mixtures of 404 and permanent
 				beh = c03S404
 				if r.Chance(1, 6) {
 					beh = []int{c03S403, c03S500, c03Conn}[r.Intn(3)]
 				}
+			}
+			if d, ok := c03Declared[beh]; ok && bl.declOnly {
+				beh = d
 			}
 			sc[s] = append(sc[s], c03MakeResp(beh, content, r.Intn(1<<20)))
 		}
@@ -504,11 +536,26 @@ func c03Gen(t *testing.T, r *vRand, i int) *c03Case {
 		bl.loc = hash
 		if hint {
 			bl.loc += fmt.Sprintf("+%d", len(content))
-			if r.Chance(1, 20) && !fileCase && len(content) > 0 {
-				// a locator whose size hint is wrong: outside the property, model comparison only
-				bl.loc = fmt.Sprintf("%s+%d", hash, len(content)+[]int{-1, 1, 2}[r.Intn(3)])
+			if r.Chance(3, 25) && !fileCase {
+				// a locator whose size hint is not the size of the data with that hash (wrong hint in a manifest,
+				// hint rewritten on the way): judged by the locator clauses of spec_b (digest and size of what is
+				// delivered as a success), not by the content clauses
+				h := len(content) + []int{-2, -1, 1, 2, 3}[r.Intn(5)]
+				if h < 0 {
+					h = len(content) + 1 + r.Intn(3)
+				}
+				bl.loc = fmt.Sprintf("%s+%d", hash, h)
 				bl.consistent = false
+				bl.declOnly = r.Chance(2, 3)
 				c.tags = append(c.tags, "inconsistent-hint")
+				if h > len(content) {
+					c.tags = append(c.tags, "hint-too-big")
+				} else {
+					c.tags = append(c.tags, "hint-too-small")
+				}
+				if bl.declOnly {
+					c.tags = append(c.tags, "declared-only-script")
+				}
 			}
 		}
 		if r.Chance(1, 4) {
@@ -527,10 +574,27 @@ func c03Gen(t *testing.T, r *vRand, i int) *c03Case {
 	hasHint := func(b int) bool { return size03(c.blocks[b].loc) >= 0 }
 	for k := 0; k < nops; k++ {
 		b := r.Intn(nblocks)
+		if nblocks == 2 && c.blocks[b].consistent && !c.blocks[1-b].consistent && r.Bool() {
+			b = 1 - b // operations prefer the block whose size hint is wrong
+		}
 		L := len(c.blocks[b].content)
 		o := c03Op{blk: b}
 		x := r.Intn(100)
+		// half of the operations on a block with a wrong size hint are the ones that would show wrongly sized
+		// data as a success: a complete streaming read, a cached read of the whole block
+		probe := !c.blocks[b].consistent && r.Bool()
 		switch {
+		case probe:
+			hn := size03(c.blocks[b].loc)
+			switch y := r.Intn(20); {
+			case y < 12:
+				o.kind, o.mode = 0, []int{0, 2}[r.Intn(2)]
+				o.writerTo = r.Chance(1, 3)
+			case y < 17 || c.net:
+				o.kind, o.n, o.off = 1, []int{hn, hn + 2, L + 3}[r.Intn(3)], 0
+			default:
+				o.kind, o.k, o.n, o.off = 2, 2+r.Intn(3), []int{hn, hn + 2, L + 3}[r.Intn(3)], 0
+			}
 		case fileCase && x < 60:
 			o.kind = 3
 			total := 0
@@ -561,6 +625,9 @@ func c03Gen(t *testing.T, r *vRand, i int) *c03Case {
 			o.mode = r.Intn(4)
 			if o.mode == 1 {
 				o.k = []int{0, 1, L, L + 1, L / 2, L - 1}[r.Intn(6)]
+				if hn := size03(c.blocks[b].loc); !c.blocks[b].consistent && r.Bool() {
+					o.k = []int{hn, hn + 1, hn - 1}[r.Intn(3)]
+				}
 				if o.k < 0 {
 					o.k = 0
 				}
@@ -571,6 +638,9 @@ func c03Gen(t *testing.T, r *vRand, i int) *c03Case {
 			o.k = 2 + r.Intn(3)
 			o.n = 1 + r.Intn(L+2)
 			o.off = r.Intn(L + 2)
+			if hn := size03(c.blocks[b].loc); !c.blocks[b].consistent && r.Bool() {
+				o.n, o.off = []int{hn, hn + 2, L + 3}[r.Intn(3)], 0
+			}
 		default:
 			if !hasHint(b) && !r.Chance(1, 3) {
 				// without a size hint the cache allocates a 64 MiB buffer per fetch: keep those rare
@@ -580,7 +650,12 @@ func c03Gen(t *testing.T, r *vRand, i int) *c03Case {
 			o.kind = 1
 			o.n = []int{0, 1, L, L + 3, 1 + r.Intn(L+1)}[r.Intn(5)]
 			o.off = []int{0, 0, L, L + 1, r.Intn(L + 1)}[r.Intn(5)]
+			if hn := size03(c.blocks[b].loc); !c.blocks[b].consistent && r.Bool() {
+				o.n = []int{hn, hn + 2, L + 3, 1}[r.Intn(4)]
+				o.off = []int{0, 0, 0, 1, hn, hn + 1}[r.Intn(6)]
+			}
 		}
+		o.chunk = []int{0, 0, 0, 1, 3, 7}[r.Intn(6)]
 		c.ops = append(c.ops, o)
 	}
 	// enough scripted attempts for every fetch the operations can cause
@@ -590,7 +665,7 @@ func c03Gen(t *testing.T, r *vRand, i int) *c03Case {
 		nAtt = 5
 	}
 	for _, bl := range c.blocks {
-		bl.script = c03Script(r, c, bl.content, nAtt)
+		bl.script = c03Script(r, c, bl, nAtt)
 	}
 	if c.net {
 		c.tags = append(c.tags, "loopback-http")
@@ -598,6 +673,19 @@ func c03Gen(t *testing.T, r *vRand, i int) *c03Case {
 		c.tags = append(c.tags, "stub-transport")
 	}
 	return c
+}
+
+// c03DeclaredOnly: no scripted answer of the block is a 200 without Content-Length (description only; the
+// judge recomputes this from the case term)
+func c03DeclaredOnly(b *c03Block) bool {
+	for _, row := range b.script {
+		for _, r := range row {
+			if !r.conn && r.status == 200 && r.declared < 0 {
+				return false
+			}
+		}
+	}
+	return true
 }
 
 func c03SizeBucket(n int) int {
@@ -728,6 +816,7 @@ func c03Run(t *testing.T, c *c03Case) (results []c03Result, log [][3]int, synced
 		b := c.blocks[o.blk]
 		svc.mtx.Lock()
 		svc.writerTo = o.writerTo
+		svc.chunk = o.chunk
 		svc.mtx.Unlock()
 		switch o.kind {
 		case 0:
@@ -765,6 +854,9 @@ func c03Run(t *testing.T, c *c03Case) (results []c03Result, log [][3]int, synced
 				fmt.Sprintf("get ok size=%d from=%d read=%d bytes %s close=%s", size, srvIdx, len(got), rerr, cerr)})
 		case 1:
 			got, e := readAt(b, o.n, o.off)
+			if o.off == 0 {
+				addH([]byte(got)) // a read from offset 0 may be the whole block: its digest is judged
+			}
 			results = append(results, c03Result{fmt.Sprintf("RRead %s %s", c.str([]byte(got)), e), fmt.Sprintf("readat: %d bytes %s", len(got), e)})
 		case 2:
 			// k concurrent readers of one block: hold the services' answers until all readers wait for the fetch
@@ -811,6 +903,9 @@ func c03Run(t *testing.T, c *c03Case) (results []c03Result, log [][3]int, synced
 			<-done
 			parts := make([]string, o.k)
 			for j := range out {
+				if o.off == 0 {
+					addH([]byte(out[j].got))
+				}
 				parts[j] = fmt.Sprintf("(%s, %s)", c.str([]byte(out[j].got)), out[j].e)
 			}
 			results = append(results, c03Result{"RGroup " + gList(parts), fmt.Sprintf("group of %d: %d bytes %s", o.k, len(out[0].got), out[0].e)})
@@ -929,13 +1024,17 @@ func TestVerifC03(t *testing.T) {
 				}
 				sc = append(sc, rr)
 			}
-			bd = append(bd, map[string]interface{}{"locator": b.loc, "size": len(b.content), "order": b.order, "script": sc, "consistent": b.consistent})
+			bd = append(bd, map[string]interface{}{"locator": b.loc, "size": len(b.content), "order": b.order, "script": sc, "consistent": b.consistent,
+				"size_hint": size03(b.loc), "every_200_answer_declares_length": c03DeclaredOnly(b)})
 		}
 		desc := map[string]interface{}{"index": i, "services": c.nsvc, "retries": c.retries, "blocks": bd, "ops": ops, "results": ds,
 			"requests": log, "loopback": c.net, "concurrent_readers_synchronised": synced}
 		tags := append([]string(nil), c.tags...)
 		for _, o := range c.ops {
 			tags = append(tags, "op="+[]string{"get", "readat", "concurrent-readat", "file"}[o.kind])
+			if o.chunk > 0 && !c.net {
+				tags = append(tags, "body-read-in-small-pieces")
+			}
 		}
 		for _, b := range c.blocks {
 			for _, row := range b.script {
